@@ -11,6 +11,8 @@ Helper lemmas: `Lemmas/RoutingRedirect.lean`.
 import WzVerif.Lemmas.RoutingRedirect
 import WzVerif.Lemmas.RoutingConverge
 import WzVerif.Lemmas.RoutingDefaults
+import WzVerif.Lemmas.RoutingAlias
+import WzVerif.Lemmas.RoutingDefaults2
 namespace Wz.Props.C12
 open Wz Wz.Routing
 
@@ -281,6 +283,52 @@ example : (match mkMap {} specsDefaults with
        | _, _ => false)
     | none => false) = true := by decide +kernel
 
+/-- **defaults_redirect_no_second_partial.** After a defaults redirect no second defaults redirect
+follows: `get_default_redirect` takes the FIRST rule `r0` of the endpoint (in `build_compare_key` order)
+that provides defaults for the matched rule and is suitable for the matched values; when the target is
+re-matched to `r0` with values that agree (Python `==`, key by key: `valsAgree`, which
+`defaults_redirect_converges_partial` establishes) no rule in front of `r0` qualifies — it would
+already have qualified for the original match (`==` is transitive on the model's values) — so the
+loop reaches `r0` itself and returns `None`.
+Hypotheses: rule objects of the endpoint are distinct (`idx`), no other rule of the endpoint repeats
+the matched rule's pattern, and the matched values carry every argument of the matched rule. -/
+theorem defaults_redirect_no_second_partial {m : RMap} {a : Adapter} {r : Rule} {meth : Str}
+    {vals : List (Str × Value)} {qa : QueryArgs} {url : Str}
+    (hidx : ((rulesByEndpoint m.rules r.endpoint).map (·.idx)).Nodup)
+    (htrace : ∀ x ∈ rulesByEndpoint m.rules r.endpoint, x.idx ≠ r.idx → x.trace m.cfg ≠ r.trace m.cfg)
+    (hkeys : ∀ k ∈ r.arguments, vals.any (·.1 == k) = true)
+    (h : getDefaultRedirect m a r meth vals qa (rulesByEndpoint m.rules r.endpoint) = .ok (some url)) :
+    ∃ r0 ∈ m.rules, r0.endpoint = r.endpoint ∧ providesDefaultsFor m.cfg r0 r = true ∧
+      ∀ (vals0 : List (Str × Value)) (qa' : QueryArgs), valsAgree vals0 vals = true →
+        getDefaultRedirect m a r0 meth vals0 qa' (rulesByEndpoint m.rules r0.endpoint) = .ok none := by
+  obtain ⟨r0, hr0, hprov, _, hnone⟩ := no_second_defaults_redirect hidx htrace hkeys h
+  obtain ⟨_, _, hep, _⟩ := providesDefaultsFor_facts hprov
+  have hr0' := hr0
+  simp only [rulesByEndpoint, mem_sortRules, List.mem_filter, beq_iff_eq] at hr0'
+  refine ⟨r0, hr0'.1, hep, hprov, ?_⟩
+  intro vals0 qa' hagree
+  rw [hep]
+  exact hnone vals0 qa' hagree
+
+-- non-vacuity on the documented example: the hypotheses hold for the match of `/all/page/1`, the re-matched
+-- values {'page': 1} agree with the original ones, and the second call returns None
+example : (match mkMap {} specsDefaults with
+    | some m =>
+      (match m.rules with
+       | [r0, r1] =>
+         let l := rulesByEndpoint m.rules r1.endpoint
+         let vals : List (Str × Value) := [("page".toList, Value.int 1)]
+         decide ((l.map (·.idx)).Nodup) &&
+         l.all (fun x => x.idx == r1.idx || decide (x.trace m.cfg ≠ r1.trace m.cfg)) &&
+         r1.arguments.all (fun k => vals.any (·.1 == k)) &&
+         valsAgree vals vals &&
+         (match getDefaultRedirect m adapter0 r1 "GET".toList vals .none l,
+                getDefaultRedirect m adapter0 r0 "GET".toList vals .none (rulesByEndpoint m.rules r0.endpoint) with
+          | .ok (some _), .ok none => true
+          | _, _ => false)
+       | _ => false)
+    | none => false) = true := by decide +kernel
+
 def specsSuperset : List RuleSpec :=
   [ { toks := [.slash, .lit "articles".toList, .slash], endpoint := "art".toList,
       defaults := [("page".toList, .int 1), ("order".toList, .str "date".toList)] },
@@ -298,6 +346,65 @@ example : (match mkMap {} specsSuperset with
        | [r0, r1] => !providesDefaultsFor m.cfg r0 r1 && !sameSet r0.arguments r1.arguments
        | _ => false)
     | none => false) = true := by decide +kernel
+
+/-- **alias_redirect_converges_partial.** When the matched rule is an alias and some NON-alias rule of the
+same endpoint is suitable for the matched values (the documented meaning of `alias=True`: a canonical
+counterpart exists), the alias redirect goes to the URL `Rule.build` gives for a non-alias rule `r0` of
+that endpoint which is suitable for the values — `build()` tries rules in `build_compare_key` order,
+alias rules last, and takes the first suitable one. Hence whenever the search on the target finds `r0`
+(C04.match_build_partial), `match` returns normally: no second alias redirect. (The target stays on the
+bound host by `redirect_on_bound_host`.) Both hypotheses are needed: without a canonical rule the alias
+redirects to itself forever (`alias_without_canonical_loops`), and the rule found may carry extra
+default-only arguments (`alias_redirect_same_arguments_false`, F12c). -/
+theorem alias_redirect_converges_partial {m : RMap} {a : Adapter} {r : Rule} {vals : List (Str × Value)} {mth : Str} {u : Str}
+    (hhm : m.cfg.hostMatching = false)
+    (hbuild : adapterBuild m.cfg a m.rules r.endpoint vals (some mth) true false = .ok u)
+    (hcanon : ∃ rc ∈ m.rules, rc.endpoint = r.endpoint ∧ rc.alias = false ∧ rc.suitableFor vals (some mth) = true) :
+    ∃ r0 ∈ m.rules, r0.endpoint = r.endpoint ∧ r0.alias = false ∧ r0.suitableFor vals (some mth) = true ∧
+      (∃ upath, buildSide r0 vals (traceToks r0.pathToks) = .ok upath) ∧
+      ∀ (mg rd : Bool) (q : Req) (dom path : Str) (ts : List Str),
+        (dfs q m.root (segments dom path) []).res = .found r0 ts →
+        (matchSM m.root mg rd q dom path).isAlias = false := by
+  obtain ⟨d, path, w, hp⟩ := adapterBuild_ok_inv hbuild
+  obtain ⟨r0, hr0, hep, hal, hs, hb⟩ := build_prefers_canonical hhm hp hcanon
+  obtain ⟨upath, hup, _⟩ := rule_build_path hb
+  refine ⟨r0, hr0, hep, hal, hs, ⟨upath, hup⟩, ?_⟩
+  intro mg rd q dom path' ts hfound
+  simp only [segments] at hfound
+  simp only [matchSM, hfound, finishMatch, hal, Bool.false_and]
+  cases convertValues r0.convs ts <;> rfl
+
+def specsAliasOnly : List RuleSpec :=
+  [ { toks := [.slash, .lit "x".toList, .slash], endpoint := "e".toList, alias := true } ]
+
+/-- **the canonical-rule hypothesis is necessary (negation witness).** An alias rule without a canonical
+counterpart redirects to itself: `Map([Rule('/x/', endpoint='e', alias=True)])`, `/x/` is redirected to
+`/x/`, whose match is the same alias redirect again (the `assert url != path` in
+`make_alias_redirect_url` compares the URL with `'domain|path'` and can never fire). -/
+theorem alias_without_canonical_loops :
+    ¬ (∀ (cfg : MapCfg) (specs : List RuleSpec) (m : RMap) (a : Adapter) (p url p' q' : Str),
+        mkMap cfg specs = some m → m.cfg.hostMatching = false →
+        (matchSM m.root m.cfg.mergeSlashes m.cfg.redirectDefaults (reqOf a none none) (domainPartOf m.cfg a) (pathPart p)).isAlias = true →
+        redirectUrlOf cfg specs a (String.ofList p) = some url →
+        readRedirect false a url = some (p', q') →
+        (matchSM m.root m.cfg.mergeSlashes m.cfg.redirectDefaults (reqOf a none none) (domainPartOf m.cfg a) (pathPart p')).isAlias = false) := by
+  intro H
+  let a : Adapter := { adapter0 with scriptName := "/".toList, queryArgs := QueryArgs.none }
+  have hw : (match mkMap {} specsAliasOnly with
+      | some m =>
+        (matchSM m.root m.cfg.mergeSlashes m.cfg.redirectDefaults (reqOf a none none) (domainPartOf m.cfg a) (pathPart "/x/".toList)).isAlias &&
+        !m.cfg.hostMatching &&
+        redirectUrlOf {} specsAliasOnly a "/x/" == some "https://example.org/x/".toList &&
+        readRedirect false a "https://example.org/x/".toList == some ("/x/".toList, [])
+      | none => false) = true := by decide +kernel
+  cases hmk : mkMap {} specsAliasOnly with
+  | none => simp [hmk] at hw
+  | some m =>
+    simp only [hmk, Bool.and_eq_true, beq_iff_eq, Bool.not_eq_true'] at hw
+    obtain ⟨⟨⟨h1, hhm⟩, h2⟩, h3⟩ := hw
+    have := H {} specsAliasOnly m a "/x/".toList "https://example.org/x/".toList "/x/".toList [] hmk
+      hhm h1 (by simpa using h2) h3
+    rw [h1] at this; cases this
 
 def specsF12c : List RuleSpec :=
   [ { toks := [.slash, .lit "a".toList, .slash, .var (.any ["a".toList, "b".toList]) "n".toList, .slash], endpoint := "e".toList },
@@ -323,6 +430,46 @@ theorem alias_redirect_adds_default_arguments :
         | _, _ => false)
      | none => false) = true := by decide +kernel
 
+def pathF12c : Str := "/alt/a/b/".toList
+
+/-- **the equal-arguments hypothesis is necessary (negation witness, F12c).** Even with a canonical rule, the
+alias redirect need not preserve the arguments: the rule `build()` finds first may carry extra default-only
+arguments. -/
+theorem alias_redirect_same_arguments_false :
+    ¬ (∀ (cfg : MapCfg) (specs : List RuleSpec) (m : RMap) (a : Adapter) (p : Str) (r : Rule) (vals vals' : List (Str × Value)) (i : Nat),
+        mkMap cfg specs = some m →
+        matchSM m.root m.cfg.mergeSlashes m.cfg.redirectDefaults (reqOf a none none) (domainPartOf m.cfg a) (pathPart p) = .aliasRedirect r vals →
+        (∃ rc ∈ m.rules, rc.endpoint = r.endpoint ∧ rc.alias = false ∧ sameSet rc.arguments r.arguments = true) →
+        finalMatch (follow m a none none 3 p .none []).1 = some (i, vals') →
+        vals'.length = vals.length) := by
+  intro H
+  let a : Adapter := { adapter0 with scriptName := "/".toList, queryArgs := QueryArgs.none }
+  have hw : (match mkMap {} specsF12c with
+      | some m =>
+        (match matchSM m.root m.cfg.mergeSlashes m.cfg.redirectDefaults (reqOf a none none) (domainPartOf m.cfg a) (pathPart pathF12c) with
+         | .aliasRedirect r vals => vals.length == 1 && r.idx == 2 &&
+             m.rules.any (fun rc => rc.endpoint == r.endpoint && !rc.alias && sameSet rc.arguments r.arguments)
+         | _ => false) &&
+        finalMatch (follow m a none none 3 pathF12c .none []).1 ==
+          some (1, [("n".toList, Value.str "b".toList), ("fmt".toList, Value.int 0)])
+      | none => false) = true := by decide +kernel
+  cases hmk : mkMap {} specsF12c with
+  | none => simp [hmk] at hw
+  | some m =>
+    simp only [hmk, Bool.and_eq_true, beq_iff_eq] at hw
+    obtain ⟨h1, h2⟩ := hw
+    cases hsm : matchSM m.root m.cfg.mergeSlashes m.cfg.redirectDefaults (reqOf a none none) (domainPartOf m.cfg a) (pathPart pathF12c) with
+    | aliasRedirect r vals =>
+      simp only [hsm, Bool.and_eq_true, beq_iff_eq, List.any_eq_true, Bool.not_eq_true'] at h1
+      obtain ⟨⟨hlen, _⟩, rc, hrc, hcond⟩ := h1
+      have := H {} specsF12c m a pathF12c r vals _ 1 hmk hsm
+        ⟨rc, hrc, hcond.1.1, hcond.1.2, hcond.2⟩ h2
+      rw [hlen] at this
+      simp at this
+    | ok r v => simp [hsm] at h1
+    | requestPath p => simp [hsm] at h1
+    | noMatch ms w => simp [hsm] at h1
+
 -- OPEN (P1): slash_redirect_converges at full strength — "match (p ++ '/') is not again a slash redirect and
 -- returns the rule/values the original would have" — is FALSE as it stands (F12b above). Proved: the target
 -- is directly admitted by the strict rule that asked for the slash and its search is not `None`, and by
@@ -330,13 +477,13 @@ theorem alias_redirect_adds_default_arguments :
 -- form excluding a second `SlashRequired` needs the hypothesis that no rule part other than a final empty
 -- one admits the empty segment (no `//` left in a rule after merging, no converter accepting ""); that
 -- predicate is not carried yet.
--- OPEN (P1): defaults_redirect_converges at full strength. Proved above: the target is the canonical rule's
--- own URL for the same endpoint and (Python-)equal arguments, and — given that the canonical rule's URLs
--- match back, which C04.match_build_partial proves for rules of the grammar on non-overlapping maps —
--- the re-match denotes the same endpoint and arguments. Missing: that the re-match is not followed by a
--- second defaults redirect (the first rule of the endpoint that provides defaults was chosen, so no
--- earlier one is suitable — an argument about `suitable_for` under Python `==` that is not formalised),
--- and the alias redirect (which can add default-only arguments: F12c above); both are covered by stream `redirects` (oracle: chain ends, no two
--- consecutive canonical redirects on unambiguous maps, final endpoint/arguments equal the original's).
+-- OPEN (P1): defaults_redirect_converges in one piece. Proved above: the target is the canonical rule's own URL
+-- for the same endpoint and (Python-)equal arguments; given that the canonical rule's URLs match back
+-- (C04.match_build_partial: rules of the grammar on non-overlapping maps) the re-match denotes the same
+-- endpoint and arguments (`defaults_redirect_converges_partial`); and no second defaults redirect follows
+-- (`defaults_redirect_no_second_partial`). The alias redirect: `alias_redirect_converges_partial` with both
+-- hypotheses shown necessary. Missing: discharging `hback` from the map shape inside C12 (it needs that
+-- values produced by `to_python` lie in the canonical domain of `to_url`, e.g. idempotence of the float
+-- text normalisation) — validated by stream `redirects`.
 
 end Wz.Props.C12
